@@ -61,6 +61,16 @@ func zzRoundTrip(x, fresh zzCodec) (ok bool, first, second []byte) {
 	return true, first, again.Bytes()
 }
 
+// zzDecodeInto: the encoding decoded into a frame that already exists (built
+// by its constructor, as ProposalKeyFrame.Snapshot and the restore path do, or
+// holding older content) must give the same state as decoding into a zero value
+func zzDecodeInto(used zzCodec, encoding []byte, id string) {
+	nd.Assert(used.Deserialize(bytes.NewReader(encoding)) == nil, "own_encoding_decodes_into_a_used_frame")
+	again := new(bytes.Buffer)
+	used.Serialize(again)
+	nd.Assert(bytes.Equal(again.Bytes(), encoding), id)
+}
+
 // ZZ_C23_crmember: a committee member with every field arbitrary round-trips.
 func ZZ_C23_crmember() {
 	m := zzMember()
@@ -113,6 +123,11 @@ func ZZ_C23_committee() {
 	nd.Assert(len(q.PartProposalResults) == 1, "list_PartProposalResults_keeps_its_entry")
 	nd.Assert(len(q.CurrentSignedWithdrawFromSideChainKeys) == 1, "map_CurrentSignedWithdrawFromSideChainKeys_keeps_its_entry")
 	nd.Assert(bytes.Equal(a, b), "re_encoding_the_decoded_committee_frame_gives_the_same_bytes")
+	used := NewKeyFrame()
+	used.ClaimedDPoSKeys["stale"] = struct{}{}
+	used.PartProposalResults = []payload.ProposalResult{{Result: true}}
+	used.LastCommitteeHeight = 77
+	zzDecodeInto(used, a, "decoding_into_a_used_committee_frame_gives_the_same_state")
 }
 
 // ZZ_C23_crstate: the CR state key frame (one entry in every map) round-trips.
@@ -155,6 +170,11 @@ func ZZ_C23_crstate() {
 	nd.Assert(len(q.UsedCRImpeachmentVotes) == 1, "map_UsedCRImpeachmentVotes_keeps_its_entry")
 	nd.Assert(len(q.UsedCRCProposalVotes) == 1, "map_UsedCRCProposalVotes_keeps_its_entry")
 	nd.Assert(bytes.Equal(a, b), "re_encoding_the_decoded_cr_state_frame_gives_the_same_bytes")
+	used := NewStateKeyFrame()
+	used.Nicknames["stale"] = struct{}{}
+	used.DepositOutputs["stale"] = 1
+	used.CurrentSession = 77
+	zzDecodeInto(used, a, "decoding_into_a_used_cr_state_frame_gives_the_same_state")
 }
 
 // ZZ_C23_proposals: the proposal key frame's simple members round-trip.
@@ -191,4 +211,9 @@ func ZZ_C23_proposals() {
 	nd.Assert(len(q.RegisteredMagicNumbers) == nMagic, "list_RegisteredMagicNumbers_keeps_its_entries")
 	nd.Assert(len(q.RegisteredGenesisHashes) == nGenesis, "list_RegisteredGenesisHashes_keeps_its_entries")
 	nd.Assert(bytes.Equal(a, b), "re_encoding_the_decoded_proposal_frame_gives_the_same_bytes")
+	// NewProposalKeyFrame pre-seeds the registered side-chain lists
+	used := NewProposalKeyFrame()
+	used.ReservedCustomIDLists = []string{"stale"}
+	used.PendingReceivedCustomIDMap["stale"] = struct{}{}
+	zzDecodeInto(used, a, "decoding_into_a_used_proposal_frame_gives_the_same_state")
 }
